@@ -488,6 +488,8 @@ def make_handler(case, log, dest_port):
                 else:
                     s = build_status(st["s"])
                     d, _ = build_dataset(st["d"], "implicit" if dimse == "C-MOVE" else case["ts"])
+                    if case.get("slow_yields"):
+                        time.sleep(case["slow_yields"])
                     log.add("yield", i)
                     yield (s, d)
                 log.add("resumed", i)
@@ -1225,7 +1227,28 @@ def _assign_chunked_receive(cases, seed, pid, tier):
     return cases
 
 
+def _assign_early_destination_abort(cases, seed, pid, tier):
+    """A quarter of the C-MOVE handlers that yield three or more instances lose their move destination during the first or second
+    sub-operation (it aborts), so that further results are yielded while the store association is already gone."""
+    from .common import rng_for
+    rng = rng_for(seed, pid, "dest-abort", tier)
+    for c in cases:
+        h = c["h"]
+        if SERVICES[c["svc"]]["dimse"] != "C-MOVE" or h.get("kind") != "gen" or not c.get("subops"):
+            continue
+        n_inst = sum(1 for st in h["steps"] if isinstance(st.get("d"), dict) and str(st["d"].get("t", "")).startswith("inst"))
+        if n_inst >= 3 and rng.random() < 0.25:
+            c["subops"] = list(c["subops"])
+            c["subops"][rng.choice([0, 1])] = "abort"
+            c["slow_yields"] = 0.08        # the handler takes a moment per result: the lost association has been noticed by then
+    return cases
+
+
 def gen_cases(tier, seed, pid, focus=None):
+    return _assign_early_destination_abort(_assign_chunked_receive_and_exc(tier, seed, pid, focus), seed, pid, tier)
+
+
+def _assign_chunked_receive_and_exc(tier, seed, pid, focus=None):
     return _assign_chunked_receive(_assign_exception_classes(_gen_cases(tier, seed, pid, focus), seed, pid, tier), seed, pid, tier)
 
 
